@@ -445,6 +445,21 @@ func exec(op string) (string, string) {
 	if len(ents) > 1 {
 		tags["supported"] = true
 	}
+	validBy := map[int]bool{}
+	for _, m := range o.msgs {
+		owner := -1
+		if m.idx >= 1 && int(m.idx) <= len(o.ops) {
+			owner = o.ops[m.idx-1]
+		}
+		if owner != m.netKey || m.msgKey != m.netKey || m.hash != o.pref || m.sess != o.sess {
+			continue
+		}
+		if m.kind == 0 {
+			validBy[m.netKey] = true
+		} else if validBy[m.netKey] {
+			tags["multiseat-valid-then-invalid"] = true
+		}
+	}
 	var ts []string
 	for t := range tags {
 		ts = append(ts, t)
@@ -552,6 +567,35 @@ func gen(r *hx.Rng, n int, tier string) []string {
 				sh[a] = o.msgs[b]
 			}
 			o.msgs = sh
+		}
+		// a multi-seat operator: its first seat signs validly, a later seat sends a wrong signature
+		// (other hash / other key / garbage) with the same key over the same hash
+		if r.Chance(1, 3) {
+			bySeat := map[int][]int{}
+			for s := 1; s <= ns; s++ {
+				if s != o.self && o.ops[s-1] >= 1 {
+					bySeat[o.ops[s-1]] = append(bySeat[o.ops[s-1]], s)
+				}
+			}
+			for k := 1; k <= 3; k++ {
+				if seats := bySeat[k]; len(seats) >= 2 {
+					a, b := seats[0], seats[1]
+					if r.Bool() {
+						a, b = b, a
+					}
+					var rest []msgT
+					for _, m := range o.msgs {
+						if int(m.idx) != a && int(m.idx) != b {
+							rest = append(rest, m)
+						}
+					}
+					good := msgT{idx: uint8(a), netKey: k, msgKey: k, sess: o.sess, hash: o.pref, kind: 0}
+					bad := msgT{idx: uint8(b), netKey: k, msgKey: k, sess: o.sess, hash: o.pref, kind: r.Range(1, 3)}
+					cut := r.Intn(len(rest) + 1)
+					o.msgs = append(append(append([]msgT{}, rest[:cut]...), good, bad), rest[cut:]...)
+					break
+				}
+			}
 		}
 		// thresholds around the plausible support size
 		o.n = ns
